@@ -45,7 +45,7 @@ Print Assumptions C04_nothing_else.
 (* non-vacuity and the repaired finding F4: size 8, send 100,101,102 then the
    late 93 - 101 is still retransmittable *)
 Example C04_get_example :
-  let mk s := mkRP s (mkH false 0 false 96 s 0 1 []) [s] in
+  let mk s := mkRP s (mkH false 0 false 96 s 0 1 [] no_x) [s] in
   rb_get (fold_left rb_step [HAdd (mk 100); HAdd (mk 101); HAdd (mk 102); HAdd (mk 93)] (mkRB 8 [] 0 false)) 101
   = Some (mk 101).
 Proof. vm_compute. reflexivity. Qed.
@@ -81,8 +81,8 @@ Print Assumptions C04_rejects_only_unstorable.
 
 (* non-vacuity: old-style padding of 2 bytes removed behind the OSN prefix *)
 Example C04_rtx_example :
-  fst (new_packet 500 (mkH true 0 true 96 258 7 1000 []) [9; 8; 0; 2] 2000 97) =
-  NPOk (mkRP 258 (mkH false 0 true 97 500 7 2000 []) [1; 2; 9; 8]).
+  fst (new_packet 500 (mkH true 0 true 96 258 7 1000 [3; 4] (true, 48862, [(1, [170]); (5, [1; 2; 3])])) [9; 8; 0; 2] 2000 97) =
+  NPOk (mkRP 258 (mkH false 0 true 97 500 7 2000 [3; 4] (true, 48862, [(1, [170]); (5, [1; 2; 3])])) [1; 2; 9; 8]).
 Proof. vm_compute. reflexivity. Qed.
 Print Assumptions C04_rtx_example.
 
@@ -125,10 +125,10 @@ Theorem C04_one_per_request : forall size wid a seqs,
 Proof. exact nack_answer_one_per_request. Qed.
 Print Assumptions C04_one_per_request.
 
-(* streams that are not bound (never bound, filtered out, unbound, closed) produce nothing *)
+(* streams that are not bound (never bound, filtered out, unbound, closed, bound after Close) produce nothing *)
 Theorem C04_unbound_nothing : forall s ssrc pairs,
   amap_find ssrc (rs_streams s) = None -> rstep s (ONack ssrc pairs) = (s, (0, [])).
-Proof. intros s ssrc pairs H. simpl. rewrite H. reflexivity. Qed.
+Proof. intros s ssrc pairs H. simpl. destruct (rs_closed s); [reflexivity|]. rewrite H. reflexivity. Qed.
 Print Assumptions C04_unbound_nothing.
 
 (* the entries of the send histories: the packet as sent (copy disabled or RTX
@@ -143,10 +143,10 @@ Print Assumptions C04_history_entries.
 (* non-vacuity: size 8, RTX stream, 100..102 and the late 93, NACK 101 + bit 0 (102) + bit 2 (104, never sent) *)
 Example C04_nack_example :
   let i := mkSI 1000 2000 97 true in
-  let w s := OWrite 0%nat (mkH false 0 false 96 s 5 1000 []) [s] in
+  let w s := OWrite 0%nat (mkH false 0 false 96 s 5 1000 [] no_x) [s] in
   snd (snd (rstep (fst (rfold (rinit 8 true 500) [] [OBind i 0; w 100; w 101; w 102; w 93]))
                   (ONack 1000 [(101, 5)]))) =
-  [(0, mkH false 0 false 97 501 5 2000 [], [0; 101; 101]); (0, mkH false 0 false 97 502 5 2000 [], [0; 102; 102])].
+  [(0, mkH false 0 false 97 501 5 2000 [] no_x, [0; 101; 101]); (0, mkH false 0 false 97 502 5 2000 [] no_x, [0; 102; 102])].
 Proof. vm_compute. reflexivity. Qed.
 Print Assumptions C04_nack_example.
 
